@@ -11,6 +11,12 @@
 (*  v   what it saw: "result" (an element), "error" (a stanza error),       *)
 (*      "local" (a send/disconnect error)                                   *)
 (*  got the marker of the element / error it was completed with             *)
+(* Every line carries sp: the requests ("k1", "k2") that were issued from   *)
+(* inside a continuation during the step (a Send line with b = "sendNew":   *)
+(* the continuation of that request issues its child request when it runs). *)
+(* They are requests like any other: each completes exactly once, a         *)
+(* response with its id from its addressee completes it, none stays pending *)
+(* once its session cannot be resumed.                                      *)
 (* A Send line carries c, the id the caller put into the IQ ("fresh",       *)
 (* "empty", "dup-j" = the id request j, still pending, went out with), and  *)
 (* wk / clash, what the stanza was really written with.  A Recv line for    *)
@@ -48,13 +54,18 @@ Proj == [req |-> [i \in Ids |-> [n |-> req[i].n, v |-> req[i].by]], passed |-> o
 ObsProj(o) == [req |-> [i \in Ids |-> [n |-> o.req[i].n, v |-> o.req[i].v]], passed |-> o.passed, up |-> o.up]
 
 ModelAct(ev) ==
-    CASE ev.e = "Send"    -> Send(ev.id, ev.to, ev.c)
+    CASE ev.e = "Send"    -> Send(ev.id, ev.to, ev.c, ev.b)
       [] ev.e = "Recv"    -> Recv(ev.id, ev.ty, ev.from)
       [] ev.e = "Open"    -> Open(ev.k)
       [] ev.e = "Close"   -> Close(ev.k)
       [] ev.e = "Destroy" -> Destroy
       [] ev.e = "Attempt" -> Attempt(ev.r)
       [] OTHER            -> FALSE
+
+InSeq(x, sq) == \E p \in 1..Len(sq) : sq[p] = x
+ParentOf(k) == CHOOSE i \in Ids : Child(i) = k
+\* can a stanza be written while the step runs (a session is up, or is just being opened)?
+Writable(m, ev) == ev.e \in {"Recv", "Open"} \/ (ev.e = "Send" /\ m.up)
 
 MonNext(m, ev) ==
     LET o == ev.o
@@ -68,9 +79,12 @@ MonNext(m, ev) ==
         dead  |-> m.dead \/ a = "Destroy",
         st    |-> [i \in Ids |-> IF o.req[i].n >= 1 THEN "Done"
                                  ELSE IF a = "Send" /\ ev.id = i THEN "Out"
+                                 ELSE IF InSeq(i, ev.sp) THEN "Out"       \* issued from a continuation during this step
                                  ELSE IF a = "Destroy" /\ m.st[i] = "Out" /\ ApiOf(i) = "chained" THEN "Abandoned"
                                  ELSE m.st[i]],
-        to    |-> [i \in Ids |-> IF a = "Send" /\ ev.id = i THEN ev.to ELSE m.to[i]],
+        to    |-> [i \in Ids |-> IF a = "Send" /\ ev.id = i THEN ev.to
+                                 ELSE IF InSeq(i, ev.sp) THEN (IF a = "Send" /\ Child(ev.id) = i THEN ev.to ELSE m.to[ParentOf(i)])
+                                 ELSE m.to[i]],
         n     |-> [i \in Ids |-> o.req[i].n]]
 
 (* the step ends the session for good / starts one that is not a resumption *)
@@ -79,7 +93,10 @@ Ends(m, ev) == \/ ev.e = "Destroy" \/ (ev.e = "Close" /\ ~(ev.k = "cut" /\ m.res
 
 JustifiedAt(m, ev, i) ==
     LET r == ev.o.req[i] IN
-    CASE ev.e = "Recv" -> ev.id = i /\ m.st[i] = "Out"
+    \* a request issued from a continuation during this step and already complete: only a send error,
+    \* and only if nothing could be written
+    CASE InSeq(i, ev.sp) -> r.v = "local" /\ ~Writable(m, ev)
+      [] ev.e = "Recv" -> ev.id = i /\ m.st[i] = "Out"
                           /\ P_Justified("Recv", Cls(m.to[i], ev.from), ev.ty, r.v, ev.m, r.got, m.up)
       [] ev.e = "Send" -> ev.id = i /\ P_Justified("Send", "", "", r.v, 0, 0, m.up)
       [] Ends(m, ev)   -> m.st[i] = "Out" /\ P_Justified(ev.e, "", "", r.v, 0, 0, m.up)
